@@ -329,7 +329,12 @@ string JSON::serialize(uint32_t options, size_t indent_level) const {
     case 3: { // double
       string ret = string_printf("%g", this->as_float());
       if (ret.find('.') == string::npos) {
-        return ret + ".0";
+        // The fraction must come before the exponent, if there is one
+        size_t exp_pos = ret.find('e');
+        if (exp_pos == string::npos) {
+          return ret + ".0";
+        }
+        ret.insert(exp_pos, ".0");
       }
       return ret;
     }
